@@ -41,6 +41,12 @@ void Circuit::addNet(const std::vector<int> &cells,
     throw std::runtime_error("Inconsistent number of pins for the net");
   }
   checkNotInUse();
+  for (int c : cells) {
+    if (c < 0 || c >= nbCells()) {
+      throw std::runtime_error(
+          "Net pin references a cell that does not exist");
+    }
+  }
   if (cells.empty()) {
     return;
   }
@@ -57,12 +63,29 @@ void Circuit::setNets(const std::vector<int> &limits,
                       const std::vector<int> &yOffsets,
                       const std::vector<float> &weights) {
   checkNotInUse();
-  assert(!limits.empty());
-  assert(limits.front() == 0);
-  assert(limits.back() == (int)cells.size());
-  assert(limits.back() == (int)xOffsets.size());
-  assert(limits.back() == (int)yOffsets.size());
-  assert(limits.size() == weights.size() + 1 || weights.empty());
+  if (limits.empty() || limits.front() != 0) {
+    throw std::runtime_error("Net limits should start with 0");
+  }
+  for (size_t i = 0; i + 1 < limits.size(); ++i) {
+    if (limits[i] > limits[i + 1]) {
+      throw std::runtime_error("Net limits should be sorted");
+    }
+  }
+  if (limits.back() != (int)cells.size() ||
+      limits.back() != (int)xOffsets.size() ||
+      limits.back() != (int)yOffsets.size()) {
+    throw std::runtime_error("Inconsistent number of pins for the nets");
+  }
+  if (limits.size() != weights.size() + 1 && !weights.empty()) {
+    throw std::runtime_error(
+        "Number of weights is not the same as the number of nets");
+  }
+  for (int c : cells) {
+    if (c < 0 || c >= nbCells()) {
+      throw std::runtime_error(
+          "Net pin references a cell that does not exist");
+    }
+  }
   netLimits_ = limits;
   pinCells_ = cells;
   pinXOffsets_ = xOffsets;
